@@ -270,7 +270,10 @@ class Dict(dict, base.Symbolic, pg_typing.CustomTyping):
     # triggering during initialization.
     self._onchange_callback = onchange_callback
     self.set_accessor_writable(accessor_writable)
-    self.seal(sealed)
+    # NOTE: a new node is not sealed, and the members it was given keep their
+    # own flags unless the node itself is sealed.
+    if sealed:
+      self.seal(True)
 
   @property
   def value_spec(self) -> Optional[pg_typing.Dict]:
